@@ -72,6 +72,11 @@ CHECKS = {
   text="Model checking by trace validation: ~650 decorated calls (1-3 arguments from 12 structure shapes incl. ints, floats, bools, strings, lists, tuples, dicts, nesting, empty; 5 bodies; sequences of 3 calls in one run; keyword arguments) are run on the real code; TLC derives from the argument and result leaf sequences the exact ordered list of public values that must have been appended during the call and compares, checks what the body saw, what the caller got back and the refusal of keyword arguments; output wires are shown to be forced to the computed values by adversarial search with the argument wires fixed.",
   note="Finite shape list; exactly representable floats.",
   design="5/C17"),
+ "C13": dict(
+  technique="TLC model checking of LinAlg.tla (Hom, Immutable) + replay of TLC-generated operation histories on each backend's LC class validated by TraceLinAlg.tla; FieldFacts.tla decides moduli and inverses with exact limb arithmetic (BigNat.tla) from quotient certificates",
+  text="Model checking with conformance: LinAlg.tla models a pool of linear combinations built by add/sub/neg/scale (scalars 0,1,-1,2,p-1,p,p+1); TLC checks homomorphism and immutability on the model and prints every history of 2 operations (5760) plus ~6000 simulated histories of 5 operations; each is replayed on the LC class of snarkjs, zkinterface (bn128, bls12-381, curve25519 configurations), qaptools and the harness recorder, and after every operation the canonical term maps of ALL pool objects (result, operands, shared one/zero) must equal the spec's pool. The reported modulus is compared limb-wise with the curve orders in CurveOrders.tla and fieldinverse is checked for 25 positive, negative and unreduced arguments per backend by the exact integer identity |x|*inv = 1 + k*p.",
+  note="Coefficients stay small because scalars are s + t*p; primality of the curve-order constants is checked once by sympy in setup_cmd, not by TLC; flatbuffers import shim and qaptools stub binaries are used to load the backends.",
+  design="5/C13"),
 }
 
 NOT_YET = "check not built yet in this round (planned, see DESIGN.md section 5)"
